@@ -569,10 +569,23 @@ fn ldcpad_part(o: &Opts, out: &mut Out, run: &mut u64) {
         *run += 1;
         let mut s = match exec_session(out, *run, &fx, 50_000_000) { Some(s) => s, None => continue };
         let pc0 = s.vm.registers()[RPC];
+        let mut n = 0u64;
         for i in 0..(if thorough { 20 } else { 8 }) {
+            // every other load happens over a DIRTY former stack frame: 64 bytes above $sp are allocated, filled with two
+            // SHA-256 digests and released again - the loaded code's alignment padding must still be zero
+            if i % 2 == 1 {
+                let sp0 = s.vm.registers()[RSP];
+                let g = [(RCGAS, 10_000_000u64), (RGGAS, 10_000_000), (RPC, pc0)];
+                let mut pre = |sets: &[(usize, u64)], word: u32, n: &mut u64| { let mut v = sets.to_vec(); v.extend(g); exec_one_tagged(out, *run, *n, &mut s.vm, &v, word, Some("ldcpad")); *n += 1; };
+                pre(&[], enc_i24(0x91, 64), &mut n);
+                pre(&[(A as usize, sp0), (B as usize, 0), (C as usize, 0)], enc_rrr(0x42, A, B, C), &mut n);
+                pre(&[(A as usize, sp0 + 32), (B as usize, 0), (C as usize, 1)], enc_rrr(0x42, A, B, C), &mut n);
+                pre(&[], enc_i24(0x92, 64), &mut n);
+            }
             let (mut sets, word) = pick_instr(&mut rng, &fx, &s, MEM, Some(if (k + i) % 2 == 0 { "LDC0" } else { "LDC1" }), true);
             sets.extend([(RCGAS, 10_000_000), (RGGAS, 10_000_000), (RPC, pc0)]);
-            exec_one_tagged(out, *run, i as u64, &mut s.vm, &sets, word, Some("ldcpad"));
+            exec_one_tagged(out, *run, n, &mut s.vm, &sets, word, Some("ldcpad"));
+            n += 1;
         }
     }
 }
